@@ -246,6 +246,46 @@ def removeSpec (x : List Frag) (d : JV) : JV := remAll (locs x d) d
 
 def modifySpec (x : List Frag) (m : Modifier) (d : JV) : JV := updAll m.eff (locs x d) d
 
+/-- a mutation: Set with a value, Del, Modify with a modifier, Remove -/
+inductive Op where
+  | set (v : JV)
+  | del
+  | mod (m : Modifier)
+  | rem
+
+/-- the tree the property demands after the mutation (all matches) -/
+def expected (x : List Frag) (d : JV) : Op → JV
+  | .set v => setSpec x v d
+  | .del => delSpec x d
+  | .mod m => modifySpec x m d
+  | .rem => removeSpec x d
+
+/-- the locations outside which nothing may change, whatever the outcome (for Remove the containers of the
+selected members: positions inside them shift) -/
+def frameSet (x : List Frag) (d : JV) : Op → List Path
+  | .set _ => locs x d ++ createRoots x d
+  | .del => locs x d
+  | .mod _ => locs x d
+  | .rem => (locs x d).map List.dropLast
+
+/-- the edit of one location only -/
+def single (p : Path) (d : JV) : Op → JV
+  | .set v => updAll (fun _ => v) [p] d
+  | .del => delAll [p] d
+  | .mod m => updAll m.eff [p] d
+  | .rem => remAll [p] d
+
+/-- frame: every location that is not at, above or below a location of `T` holds what it held -/
+def Frame (T : List Path) (d d' : JV) : Prop := ∀ q, touched T q = false → valAt q d' = valAt q d
+
+/-- what the property demands of the tree `d'` a One form leaves: nothing changed, or the edit of one
+selected location, or (Set) one created member -/
+def OneOK (x : List Frag) (d d' : JV) (op : Op) : Prop :=
+  d' = d ∨ (∃ p ∈ locs x d, d' = single p d op) ∨
+    match op with
+    | .set v => ∃ c ∈ creates v x d, d' = insAll [c] d
+    | _ => False
+
 /-! ## the clauses of the property as decidable tests (used by the driver to judge the real code) -/
 
 mutual
